@@ -139,8 +139,8 @@ class RINGReaderError(RINGError):
     """
     Exception raised when input does not conform to RING syntax.
     """
-    def __init__(self, message):
-        self.message = message
+    def __init__(self, *message):
+        self.message = ' '.join(str(part) for part in message)
 
     def __str__(self):
         return self.message
@@ -153,8 +153,8 @@ class MolQueryError(Exception):
     """
     Exception raised when input does not conform to RING syntax.
     """
-    def __init__(self, message):
-        self.message = message
+    def __init__(self, *message):
+        self.message = ' '.join(str(part) for part in message)
 
     def __str__(self):
         return self.message
@@ -167,8 +167,8 @@ class ReactionQueryError(Exception):
     """
     Exception raised when input does not conform to RING syntax.
     """
-    def __init__(self, message):
-        self.message = message
+    def __init__(self, *message):
+        self.message = ' '.join(str(part) for part in message)
 
     def __str__(self):
         return self.message
